@@ -269,7 +269,8 @@ class Context:
         if len(self.samples) < 3 or (
             len(self.samples) < 8 and self.evaluations % 997 == 0
         ):
-            self.samples.append({"case": case, "verdict": res["cls"]})
+            describe = getattr(self.module, "describe", None)
+            self.samples.append({"case": describe(case) if describe else case, "verdict": res["cls"]})
 
     def note(self, msg):
         self.notes.append(msg)
